@@ -559,9 +559,20 @@ def bounded_native(ck):
                                   "input": {"version": ver, "beta": bset.tolist(), "log_e_nu": le.tolist(), "u": uu.tolist()}, "observed": {"code": np.asarray(got, float).tolist(), "spec": np.asarray(want, float).tolist()}})
             except Exception as ex:
                 fails.append({"obligation": "bounded.tau_energy", "clause": "a batch without any in-range angle is evaluated", "input": {"version": ver, "beta": bset.tolist()}, "observed": "raised %r" % ex})
+        # single-precision angles (below, inside and above the table) give what the same values give in double precision
+        b32 = np.array([0.0005, 0.0012, 0.3, 0.6, 0.75], dtype=np.float32)
+        le32, uu32 = np.array([7.5, 9.0, 8.0, 10.0, 9.0]), np.array([0.3, 0.6, 0.5, 0.2, 0.8])
+        n += 1
+        try:
+            got = np.asarray(t.tau_energy(b32.copy(), le32.copy(), uu32.copy()), dtype=float)
+            want = np.asarray(t.tau_energy(b32.astype(np.float64), le32.copy(), uu32.copy()), dtype=float)
+            if got.shape != want.shape or not np.allclose(got, want, rtol=1e-4):
+                fails.append({"obligation": "bounded.tau_energy", "clause": "single-precision angles give (to single precision) what the same values give in double precision", "input": {"version": ver, "beta (float32)": b32.tolist()}, "observed": {"float32": got.tolist(), "float64": want.tolist()}})
+        except Exception as ex:
+            fails.append({"obligation": "bounded.tau_energy", "clause": "single-precision angles (also below the smallest tabulated angle) are evaluated", "input": {"version": ver, "beta (float32)": b32.tolist()}, "observed": "raised %r" % ex})
         # the stored tau energy of the whole stage is tau_energy of every event, with the same random stream (also where the exit probability is at its floor)
-        bb = np.array([np.radians(40.0), 0.3, np.radians(41.5), 0.05, np.radians(38.0), 0.6])
-        le = np.array([11.0, 8.5, 11.5, 9.0, 10.75, 7.0])
+        bb = np.array([np.radians(40.0), 0.3, np.radians(41.5), 0.05, np.radians(38.0), 0.6, np.radians(43.0), 0.0005, np.radians(44.5)])
+        le = np.array([11.0, 8.5, 11.5, 9.0, 10.75, 7.0, 9.5, 8.0, 6.5])
         n += 1
         try:
             np.random.seed(ck.seed + 21)
